@@ -185,6 +185,20 @@ Theorem C04_hand_on_presents_buffered_body :
 Proof. exact hand_on_lemma. Qed.
 Print Assumptions C04_hand_on_presents_buffered_body.
 
+(* ... and both stay that way under every further operation sequence on the family that does not assign a new
+   wsgi.input to one of the two: the original keeps presenting its body, the consumer what it was given. *)
+Theorem C04_hand_on_then_both_stable :
+  forall buf, 0 < buf ->
+  forall w r rq c k ops k1 k2,
+    nth_error (w_reqs w) r = Some rq -> r_failed rq = false -> r_cache rq = Some c ->
+    let n := length (w_reqs w) in
+    forallb (fun o => negb (sets_input r o) && negb (sets_input n o)) ops = true ->
+    let w2 := fst (run buf None (fst (step buf None w (OHandOn r k))) ops) in
+    step buf None w2 (OBody r k1) = (w2, OutBytes (take_opt k1 c))
+    /\ step buf None w2 (OBody n k2) = (w2, OutBytes (take_opt k2 (firstn (Z.to_nat (r_cl rq)) c))).
+Proof. exact hand_on_then_stable. Qed.
+Print Assumptions C04_hand_on_then_both_stable.
+
 (* After any passive history: first access, then the environ handed on — both are presented the first Content-Length
    bytes of the server stream. *)
 Theorem C04_next_consumer_after_first_access :
